@@ -1328,6 +1328,10 @@ public:
     {
         basic_bigint<Allocator> n(*this);
         signum = (n < 0) ? -1 : (n > 0 ? 1 : 0); 
+        if (signum < 0)
+        {
+            n = -n; // the bytes are those of the magnitude
+        }
 
         basic_bigint<Allocator> divisor(256);
 
